@@ -343,6 +343,9 @@ class Verdict:
         self.pid = pid
         self.viol = []      # (key, description, payload)
         self.known = known_findings(pid)
+        import glob
+        for f in glob.glob(os.path.join(outdir(pid), "viol-*.json")):   # replay files of earlier runs
+            os.remove(f)
 
     def violation(self, key, desc, payload=None):
         self.viol.append((key, desc, payload or {}))
